@@ -24,6 +24,7 @@ RULE = ('1-D time-series files built through the public API: 1-200 records, '
         '(space-delimited, real header comments) cycled twice. non-trivial = >= 2 '
         'records or a masked cell; distinct = digest of the spec.')
 RULE += (' Also: integer time column, units with parentheses, an output path that earlier held a file of another format.')
+RULE += (" Missing code 0; a source whose header declares scale factors other than 1 (the writer's text with line 11 edited): the reader owes data x factor and a written copy must read back the same values.")
 ASSUMPTIONS = [
     'files carry one missing code per variable (fill_value == missing_value)',
     'values are compared to 7 significant digits (the %.6e text form)',
